@@ -24,6 +24,7 @@ def run(ctx: Context) -> None:
     ctx.rule('R12.2', "the reducer agrees with that orientation: the floor is the last valid layer = argmax over the depth dimension of a cumulative count of valid layers", floor=3)
     ctx.rule('R12.3', "one depth dimension throughout: skip test, spatial dimension set, floor search, the isel that picks the floor; all variables of a group are indexed by the one floor array; the reduced group overrides the originals; depth dimensions are dropped", floor=9)
     ctx.rule('R12.4', "Convention methods that read the optional time coordinate for another purpose tolerate its absence", floor=3)
+    ctx.rule('R12.5', "the normalisation ocean_floor relies on is sound: ordering is read from the copy's current values with the current sign, and a mismatch reverses the whole dataset (shared with C13 R13.3-R13.5)", floor=10)
     ctx.assume("NOT decided: NaN semantics of cumsum/argmax, all-NaN columns, static sea floor across the variables of a group - run-time numerical facts")
     ctx.assume("xarray: Dataset.isel with a DataArray indexer picks per-location layers; merge(compat='override') keeps the receiver's variables")
 
@@ -55,6 +56,10 @@ def run(ctx: Context) -> None:
     assigned = isinstance(st_norm, ast.Assign) and isinstance(st_norm.targets[0], ast.Name) and st_norm.targets[0].id == ds
     ctx.check('R12.1', ok_args and assigned and not stale, "the normalised dataset replaces the input before anything else reads it", of,
               stale[0] if stale else nc, construct='dataset = normalize_depth_variables(dataset, ...); stale uses of the input: ' + str(len(stale)))
+
+    from . import c13
+    from .common import share_obligations
+    share_obligations(ctx, c13, {'R13.3', 'R13.4', 'R13.5'}, 'R12.5')
 
     # ---- R12.2 the reducer
     ff = ctx.func(f"{DEPTH}._find_ocean_floor_indexes")
